@@ -203,6 +203,33 @@ func serialize(sc *slayers.SCION, l4 string, hbh, e2e bool, dport uint16, payloa
 		m := &slayers.SCMP{TypeCode: slayers.CreateSCMPTypeCode(slayers.SCMPTypeEchoRequest, 0)}
 		m.SetNetworkLayerForChecksum(sc)
 		ls = append(ls, m, &slayers.SCMPEcho{Identifier: 9, SeqNumber: 7}, gopacket.Payload(payload))
+	case "echoreply":
+		*next = slayers.L4SCMP
+		m := &slayers.SCMP{TypeCode: slayers.CreateSCMPTypeCode(slayers.SCMPTypeEchoReply, 0)}
+		m.SetNetworkLayerForChecksum(sc)
+		ls = append(ls, m, &slayers.SCMPEcho{Identifier: 40001, SeqNumber: 7}, gopacket.Payload(payload))
+	case "trreply":
+		*next = slayers.L4SCMP
+		m := &slayers.SCMP{TypeCode: slayers.CreateSCMPTypeCode(slayers.SCMPTypeTracerouteReply, 0)}
+		m.SetNetworkLayerForChecksum(sc)
+		ls = append(ls, m, &slayers.SCMPTraceroute{Identifier: 40001, Sequence: 7, IA: FarIA, Interface: 5})
+	case "tcp":
+		*next = slayers.L4TCP
+		hdr := make([]byte, 20)
+		binary.BigEndian.PutUint16(hdr[0:], 40000)
+		binary.BigEndian.PutUint16(hdr[2:], dport)
+		hdr[12] = 5 << 4
+		ls = append(ls, gopacket.Payload(append(hdr, payload...)))
+	case "scmpext":
+		*next = slayers.L4SCMP
+		m := &slayers.SCMP{TypeCode: slayers.CreateSCMPTypeCode(slayers.SCMPTypeExternalInterfaceDown, 0)}
+		m.SetNetworkLayerForChecksum(sc)
+		ls = append(ls, m, &slayers.SCMPExternalInterfaceDown{IA: FarIA, IfID: 5}, gopacket.Payload(payload))
+	case "scmpparam":
+		*next = slayers.L4SCMP
+		m := &slayers.SCMP{TypeCode: slayers.CreateSCMPTypeCode(slayers.SCMPTypeParameterProblem, slayers.SCMPCodeInvalidHopFieldMAC)}
+		m.SetNetworkLayerForChecksum(sc)
+		ls = append(ls, m, &slayers.SCMPParameterProblem{Pointer: 40}, gopacket.Payload(payload))
 	case "scmperr":
 		*next = slayers.L4SCMP
 		m := &slayers.SCMP{TypeCode: slayers.CreateSCMPTypeCode(slayers.SCMPTypeDestinationUnreachable, 1)}
@@ -339,6 +366,24 @@ func Corpus(payload []byte, withSibling bool) []Named {
 		s.Payload = payload
 		return Named{name, s.Via, Build(s)}
 	}
+	// SCMP error messages whose quote is corpus entry qi (built first, without quotes)
+	var base []Named
+	quote := func(name string, s Spec, qi int) Named {
+		q := []byte{}
+		if qi < len(base) {
+			q = base[qi].Raw
+		}
+		s.Payload = q
+		return Named{name, s.Via, Build(s)}
+	}
+	for pass := 0; pass < 2; pass++ {
+		base = corpusOnce(udp, quote, payload, withSibling)
+	}
+	return base
+}
+
+func corpusOnce(udp func(string, Spec) Named, quote func(string, Spec, int) Named, payload []byte,
+	withSibling bool) []Named {
 	c := []Named{
 		udp("transit-1-2", Spec{Via: 1, In: 1, Eg: 2, ConsDir: true, Pos: 1, SrcIA: FarIA, DstIA: ChildIA, SrcHost: FarHost, DstHost: HostAddr}),
 		udp("transit-2-1", Spec{Via: 2, In: 1, Eg: 2, ConsDir: false, Pos: 1, SrcIA: ChildIA, DstIA: FarIA, SrcHost: HostAddr, DstHost: FarHost}),
@@ -357,6 +402,13 @@ func Corpus(payload []byte, withSibling bool) []Named {
 		udp("unknown-egress-1", Spec{Via: 1, In: 1, Eg: 9, ConsDir: true, Pos: 1, SrcIA: FarIA, DstIA: ChildIA, SrcHost: FarHost, DstHost: HostAddr}),
 		udp("epic-1-2", Spec{Via: 1, In: 1, Eg: 2, ConsDir: true, Pos: 1, SrcIA: FarIA, DstIA: ChildIA, SrcHost: FarHost, DstHost: HostAddr, Epic: true}),
 		udp("svc-inbound-1", Spec{Via: 1, In: 1, Eg: 0, ConsDir: true, Pos: 2, SrcIA: FarIA, DstIA: LocalIA, SrcHost: FarHost, DstHost: HostAddr, DstPort: 80}),
+		udp("echoreply-inbound-1", Spec{Via: 1, In: 1, Eg: 0, ConsDir: true, Pos: 2, SrcIA: FarIA, DstIA: LocalIA, SrcHost: FarHost, DstHost: HostAddr, L4: "echoreply"}),
+		udp("trreply-inbound-1", Spec{Via: 1, In: 1, Eg: 0, ConsDir: true, Pos: 2, SrcIA: FarIA, DstIA: LocalIA, SrcHost: FarHost, DstHost: HostAddr, L4: "trreply"}),
+		udp("tcp-inbound-1", Spec{Via: 1, In: 1, Eg: 0, ConsDir: true, Pos: 2, SrcIA: FarIA, DstIA: LocalIA, SrcHost: FarHost, DstHost: HostAddr, L4: "tcp"}),
+		quote("scmperr-udp-inbound-1", Spec{Via: 1, In: 1, Eg: 0, ConsDir: true, Pos: 2, SrcIA: FarIA, DstIA: LocalIA, SrcHost: FarHost, DstHost: HostAddr, L4: "scmperr"}, 0),
+		quote("scmperr-echo-inbound-1", Spec{Via: 1, In: 1, Eg: 0, ConsDir: true, Pos: 2, SrcIA: FarIA, DstIA: LocalIA, SrcHost: FarHost, DstHost: HostAddr, L4: "scmpparam"}, 12),
+		quote("scmperr-scmperr-inbound-1", Spec{Via: 1, In: 1, Eg: 0, ConsDir: true, Pos: 2, SrcIA: FarIA, DstIA: LocalIA, SrcHost: FarHost, DstHost: HostAddr, L4: "scmpext"}, 20),
+		quote("scmperr-tr-inbound-1", Spec{Via: 1, In: 1, Eg: 0, ConsDir: true, Pos: 2, SrcIA: FarIA, DstIA: LocalIA, SrcHost: FarHost, DstHost: HostAddr, L4: "scmperr"}, 10),
 		{"xover-2-1", 2, Xover(1, "udp", false, payload)},
 		{"xover-2-1-bad", 2, Xover(1, "udp", true, payload)},
 		{"xover-2-1-tr", 2, Xover(1, "trreq", false, payload)},
@@ -366,6 +418,7 @@ func Corpus(payload []byte, withSibling bool) []Named {
 		{"ohp-out-2", 0, OneHop(0, 2, "udp", payload)},
 		{"bfd-ohp-1", 1, OneHop(1, 0, "bfd", nil)},
 		{"stun-0", 0, Stun()},
+		{"stun-badfp-0", 0, func() []byte { b := Stun(); b[len(b)-1] ^= 0xff; return b }()},
 	}
 	if withSibling {
 		c = append(c,
